@@ -70,6 +70,7 @@ class Sym(Val):
         self.types = types          # set of type names this value is an instance of (closed world) or None
         self.attrs = attrs or {}    # attribute name -> Val (scenario facts such as is_uid -> Const(True))
         self.nonnull = nonnull
+        self.skel = None            # boolean skeleton when the value is the result of a test (flag variables: ok = a == b)
 
     def __repr__(self):
         return 'Sym(%s)' % self.text
@@ -1028,6 +1029,10 @@ class Frame(object):
             ft = self.text(test.func, st)
             args = [self.text(a, st) for a in test.args]
             return ('call', ft, args)
+        if isinstance(test, (ast.Name, ast.Attribute)):
+            v = self.ev(test, st, quiet=True)
+            if isinstance(v, Sym) and getattr(v, 'skel', None) is not None:
+                return v.skel           # a flag that holds the result of an earlier test
         return ('expr', self.text(test, st))
 
     def truth(self, v):
@@ -1407,7 +1412,9 @@ class Frame(object):
         if d is not None:
             return Const(d)
         op = ' or ' if isinstance(node.op, ast.Or) else ' and '
-        return Sym('(%s)' % op.join(render(v) for v in vals))
+        r = Sym('(%s)' % op.join(render(v) for v in vals))
+        r.skel = self.cond_skel(node, st)
+        return r
 
     def ev_UnaryOp(self, node, st):
         v = self.ev(node.operand, st)
@@ -1415,7 +1422,9 @@ class Frame(object):
             d = self.decide(node, st)
             if d is not None:
                 return Const(d)
-            return Sym('not %s' % render(v))
+            r = Sym('not %s' % render(v))
+            r.skel = self.cond_skel(node, st)
+            return r
         if isinstance(v, Const) and isinstance(v.value, (int, float)) and not isinstance(v.value, bool):
             if isinstance(node.op, ast.USub):
                 return Const(-v.value)
@@ -1432,7 +1441,10 @@ class Frame(object):
         for op, c in zip(node.ops, node.comparators):
             parts.append(OPS[type(op)])
             parts.append(self.text(c, st))
-        return Sym('(%s)' % ' '.join(parts))
+        r = Sym('(%s)' % ' '.join(parts))
+        if len(node.ops) == 1:
+            r.skel = ('cmp', parts[1], parts[0], parts[2])
+        return r
 
     def ev_BinOp(self, node, st):
         l = self.ev(node.left, st)
@@ -1668,6 +1680,7 @@ class Frame(object):
             if cls is not None:
                 fi = cls.find_method(meth)
                 if fi is not None and cls.find_prop(meth) is None and cls.find_plain_prop(meth) is None:
+                    args, kwargs = _positional(fi, args, kwargs, True)      # keyword arguments of a resolved callee -> positions
                     record('%s.%s' % (render(recv), meth))
                     self.I.resolved_calls += 1
                     r = self._maybe_inline(fi, recv, args, kwargs, st, node)
@@ -1904,6 +1917,27 @@ class Frame(object):
         if all(isinstance(v, (Bytes, Const)) for v in vals) and any(isinstance(v, Bytes) for v in vals):
             return Bytes([('ALT', [as_items(v) for v in vals])])
         return Sym('ALT(%s)' % ' | '.join(texts))
+
+
+def _positional(fi, args, kwargs, bound):
+    """Move keyword arguments of a call to a resolved callee into their positions (as far as they continue the positional list)."""
+    if not kwargs or '**' in kwargs:
+        return args, kwargs
+    a = fi.node.args
+    if a.vararg is not None:
+        return args, kwargs
+    params = [x.arg for x in a.posonlyargs + a.args]
+    is_static = any(dotted(d) == 'staticmethod' for d in fi.node.decorator_list)
+    if bound and fi.cls is not None and not is_static and params:
+        params = params[1:]
+    args = list(args)
+    kwargs = dict(kwargs)
+    for p in params[len(args):]:
+        if p in kwargs:
+            args.append(kwargs.pop(p))
+        else:
+            break
+    return args, kwargs
 
 
 def _preorder(node):
